@@ -13,6 +13,7 @@
        (C34_effect_free_pure);
      - a flagged root statement whose children are effect-free and cannot fail is removable
        (C34_removable_root_partial; fallible children: C34_removable_fallible_root_partial);
+     - the same at every flagged position, blocks at any depth included (C34_removable_partial);
      - any set of effect-free infallible non-last statements, in blocks at any depth, can be deleted
        together (C34_removable_nested_partial).
    `faults s = []`: the Target rejects no operation (fault injection is C17's subject). *)
@@ -101,6 +102,22 @@ Theorem C34_removable_nested_partial :
         /\ core (snd (run F binop (elab_prog p) s)) = core (snd (run F binop (elab_prog (pdel_prog sel p)) s)).
 Proof. intros F binop tf Htf. exact (pdel_run F binop tf Htf). Qed.
 Print Assumptions C34_removable_nested_partial.
+
+(* The property's main clause, for EVERY flagged position q (root, blocks, if/else blocks, closure bodies, at any
+   depth) - full statement: without the hypothesis on the children (false, see the refutations).
+   delete_at q p removes the statement at q when q is a non-last statement of a statement list and is the identity
+   otherwise (operands, array elements, last statements: covered by the oracle only). *)
+Theorem C34_removable_partial :
+  forall (F : fname -> list value -> option value) (binop : opcode -> value -> value -> option value)
+         (tf : fname -> nat -> bool),
+    (forall f args, tf f (List.length args) = true -> F f args <> None) ->
+    forall (p : list pexpr) (q : pos) (c : wcls) (x : pexpr),
+      In (q, c) (check_program p) -> psub p q = Some x -> kids_total tf x = true ->
+      forall s, faults s = [] ->
+        fst (run F binop (elab_prog p) s) = fst (run F binop (elab_prog (delete_at q p)) s)
+        /\ core (snd (run F binop (elab_prog p) s)) = core (snd (run F binop (elab_prog (delete_at q p)) s)).
+Proof. intros F binop tf Htf. exact (removable_at F binop tf Htf). Qed.
+Print Assumptions C34_removable_partial.
 
 (* ---------- the unrestricted property is false ---------- *)
 
